@@ -339,6 +339,24 @@ func cmdCheck(args []string) int {
 		all = append(all, o)
 		preSolved[o] = true
 	}
+	// `global nonnil` variables relied upon by the VCs of this run
+	nonNilSeen := map[*ssa.Global]bool{}
+	for _, vc := range vcs {
+		for g := range vc.usedNonNil {
+			if nonNilSeen[g] {
+				continue
+			}
+			nonNilSeen[g] = true
+			o := &Obligation{Name: g.Pkg.Pkg.Name() + "." + g.Name() + "/global/initialised-once-nonnil", Class: "frame-scan", Func: g.Name(), Tags: []string{*prop}, Expect: "unsat", Src: "global nonnil " + g.Name()}
+			if why := p.checkNonNilGlobal(g); why != "" {
+				o.Result = &SolveResult{Status: "sat", Solver: "callgraph-scan", Output: why}
+			} else {
+				o.Result = &SolveResult{Status: "unsat", Solver: "callgraph-scan"}
+			}
+			all = append(all, o)
+			preSolved[o] = true
+		}
+	}
 	var solveList []*Obligation
 	for _, o := range all {
 		if !preSolved[o] {
